@@ -435,14 +435,17 @@ func realMain(rep *report.Report, tier, driver, corpus, replay string, n int) in
 		if n == 0 {
 			n = 5000
 			if tier == "thorough" {
-				n = 100000
+				n = 60000
 			}
 		}
 	}
 	if replay != "" {
 		n = 0
 	}
-	r := rng.FromEnv(0xC20)
+	// rng.FromEnv(salt) seeds with seed*gamma+salt, and splitmix64 advances by the same gamma, so
+	// consecutive VERIF_SEEDs yield the same stream shifted by one draw; hash the seed instead.
+	sh := sha256.Sum256([]byte(fmt.Sprintf("breakcheck C20 seed %d", rng.Seed())))
+	r := rng.New(binary.LittleEndian.Uint64(sh[:8]))
 	known := map[string]int{}
 	skipped, internal, total := 0, 0, 0
 	const batchSize = 3000
